@@ -181,3 +181,7 @@ func jsonBody(f map[string]any) []byte {
 	b, _ := json.Marshal(f)
 	return b
 }
+
+func newPlainClient() *http.Client {
+	return &http.Client{Timeout: 120 * time.Second, Transport: &http.Transport{MaxConnsPerHost: 4}}
+}
